@@ -56,12 +56,21 @@ def project_token(tok: Any) -> Dict[str, Any]:
             raise Unrepresentable(v)
     elif k == "RE_FLAGS":
         out["v"] = _cps("".join(sorted(set(v))))      # a set of flags; the order they were written in carries nothing
-    elif k == "RE_PATTERN":
-        try:
-            re.compile(v)
-        except (re.error, OverflowError, RecursionError):
-            out["bad"] = True
     return out
+
+
+FLAG = {"a": re.A, "i": re.I, "m": re.M, "s": re.S}
+
+
+def _regex_convertible(pattern: str, flags: str) -> bool:
+    fl = 0
+    for c in set(flags):
+        fl |= FLAG.get(c, 0)
+    try:
+        re.compile(pattern, fl)
+        return True
+    except (re.error, OverflowError, RecursionError, ValueError):
+        return False
 
 
 def tokens_of(env: Any, query: str) -> List[Dict[str, Any]]:
@@ -69,6 +78,7 @@ def tokens_of(env: Any, query: str) -> List[Dict[str, Any]]:
     from jsonpath.exceptions import JSONPathSyntaxError
 
     out = []
+    _raw: List[str] = []
     it = env.lexer.tokenize(query)
     while True:
         try:
@@ -79,6 +89,12 @@ def tokens_of(env: Any, query: str) -> List[Dict[str, Any]]:
             out.append({"k": "ILLEGAL", "v": [], "h": 0, "bad": False})
             break
         out.append(project_token(t))
+        if t.kind == "RE_FLAGS" and len(out) >= 2 and out[-2]["k"] == "RE_PATTERN":
+            # whether the host can compile the pattern depends on the flags that follow it
+            out[-2]["bad"] = not _regex_convertible(_raw[-1], t.value)
+        if t.kind == "RE_PATTERN":
+            _raw.append(t.value)
+            out[-1]["bad"] = not _regex_convertible(t.value, "")
     return out
 
 
@@ -184,3 +200,18 @@ def record(env: Any, query: str) -> Optional[Dict[str, Any]]:
         return {"toks": toks, "ok": True, "err": "none", "tree": project_query(p)}
     except Unrepresentable:
         return None
+
+
+def normal(x: Any) -> Any:
+    """A projected tree with every shorthand selector written as the one-item bracketed selection it abbreviates
+    (`.a` and `['a']` are the same segment; the canonical string form only writes the second) and every omitted slice step as 1."""
+    if isinstance(x, list):
+        return [normal(v) for v in x]
+    if not isinstance(x, dict):
+        return x
+    out = {k: normal(v) for k, v in x.items()}
+    if out.get("k") == "slice" and out.get("st") == []:
+        out["st"] = [1]          # an omitted step is the step 1 (RFC 9535 2.3.4.2.2); the canonical string form writes it
+    if "sels" in out:
+        out["sels"] = [s if s.get("k") in ("list", "ddot") else {"k": "list", "items": [s]} for s in out["sels"]]
+    return out
